@@ -12,6 +12,8 @@
 //!    8 i / 9 i   hand token i to Token::run on a connection that carries ONE complete request (8: without KeepConn, 9: with) and whose
 //!          write side never becomes ready: the handler returns at once and Request::close stalls in its first write; the request is
 //!          in flight, the token stays in use until the connection task is dropped (3 i / 6 i), also across a shutdown
+//!    10 i  the client of the stalled connection i (ops 8/9) drains its socket: the epilogue goes out, Request::close completes; the
+//!          connection then ends - unless the request had KeepConn and its runner is still running: then it idles like after op 5
 //!    7 r   Runner::shutdown on clone r (r >= 1, created, not yet shut down, no unfinished get_token future of it outstanding; otherwise
 //!          nothing happens): its idle connections are polled and end, which frees their slots for the other clones.  A later `1 r`
 //!          falls back to the original runner.
@@ -100,16 +102,17 @@ impl AsyncRead for OneShot {
     }
 }
 /// a write side that never becomes ready (a client that does not drain its socket)
-struct Stall;
+/// ... until the harness opens it (op 10): from then on it accepts everything
+struct Stall(Arc<std::sync::atomic::AtomicBool>);
 impl AsyncWrite for Stall {
-    fn poll_write(self: Pin<&mut Self>, _: &mut Context, _: &[u8]) -> Poll<io::Result<usize>> {
-        Poll::Pending
+    fn poll_write(self: Pin<&mut Self>, _: &mut Context, b: &[u8]) -> Poll<io::Result<usize>> {
+        if self.0.load(Ordering::SeqCst) { Poll::Ready(Ok(b.len())) } else { Poll::Pending }
     }
     fn poll_flush(self: Pin<&mut Self>, _: &mut Context) -> Poll<io::Result<()>> {
-        Poll::Pending
+        if self.0.load(Ordering::SeqCst) { Poll::Ready(Ok(())) } else { Poll::Pending }
     }
     fn poll_close(self: Pin<&mut Self>, _: &mut Context) -> Poll<io::Result<()>> {
-        Poll::Pending
+        Poll::Ready(Ok(()))
     }
 }
 fn returns_at_once() -> impl for<'a, 'b> FnMut(&'a mut Request<'b, OneShot, Stall>) -> BoxFuture<'a, io::Result<ExitStatus>> {
@@ -169,6 +172,7 @@ fn tok_run(a: &Args) -> Args {
     let mut kept_owner: Vec<usize> = Vec::new();
     let mut conns: Vec<Option<Pin<Box<dyn Future<Output = ()>>>>> = Vec::new();
     let mut stalled: Vec<bool> = Vec::new();
+    let mut gates: Vec<Option<(Arc<std::sync::atomic::AtomicBool>, bool)>> = Vec::new();
     let idle_counter = Arc::new(Count(AtomicUsize::new(0)));
     let mut counters: Vec<Arc<Count>> = Vec::new();
     let mut res: Args = Vec::new();
@@ -180,7 +184,16 @@ fn tok_run(a: &Args) -> Args {
         match op {
             1 => {
                 while clones.len() <= x {
-                    clones.push(Some(Box::new(base.clone())));
+                    // a clone is a clone however it is made: every other one through Clone::clone_from on a runner that was built
+                    // separately from an equal configuration
+                    let c = if clones.len() % 2 == 0 {
+                        let mut c = config(64, maxc).async_runner();
+                        c.clone_from(base);
+                        c
+                    } else {
+                        base.clone()
+                    };
+                    clones.push(Some(Box::new(c)));
                     created.push(true);
                 }
                 let (r, own): (&'static Runner, usize) = match (x, clones[x].as_ref()) {
@@ -193,6 +206,7 @@ fn tok_run(a: &Args) -> Args {
                 toks.push(None);
                 conns.push(None);
                 stalled.push(false);
+                gates.push(None);
                 counters.push(Arc::new(Count(AtomicUsize::new(0))));
             },
             2 => {
@@ -242,7 +256,9 @@ fn tok_run(a: &Args) -> Args {
             8 | 9 => {
                 if let Some(t) = toks.get_mut(x).and_then(Option::take) {
                     let rd = OneShot { data: one_request(op == 9), pos: 0 };
-                    let mut c: Pin<Box<dyn Future<Output = ()>>> = Box::pin(t.run(rd, Stall, returns_at_once()));
+                    let gate = Arc::new(std::sync::atomic::AtomicBool::new(false));
+                    gates[x] = Some((gate.clone(), op == 9));
+                    let mut c: Pin<Box<dyn Future<Output = ()>>> = Box::pin(t.run(rd, Stall(gate), returns_at_once()));
                     let waker = Waker::from(idle_counter.clone());
                     let mut cx = Context::from_waker(&waker);
                     // a request in flight is completed even when its runner has been shut down: it cannot end while its epilogue is stuck
@@ -252,6 +268,23 @@ fn tok_run(a: &Args) -> Args {
                     } else {
                         // only a connection whose runner was shut down before it started may end here: nothing new is started
                         assert!(owner[x] != 0 && clones[owner[x]].is_none(), "a connection whose epilogue cannot be written cannot finish");
+                    }
+                }
+            },
+            10 => {
+                if x < conns.len() && stalled[x] && conns[x].is_some() {
+                    let (gate, keep) = gates[x].clone().expect("gate of a stalled connection");
+                    gate.store(true, Ordering::SeqCst);
+                    let waker = Waker::from(idle_counter.clone());
+                    let mut cx = Context::from_waker(&waker);
+                    let done = conns[x].as_mut().expect("conn").as_mut().poll(&mut cx).is_ready();
+                    let runner_alive = owner[x] == 0 || clones[owner[x]].is_some();
+                    // the request in flight is completed; then a connection without KeepConn ends, and so does one whose runner was
+                    // shut down meanwhile (nothing new is started); otherwise it waits for the next request like an idle connection
+                    assert_eq!(done, !(keep && runner_alive), "after its request was completed the connection must end exactly when it had no KeepConn or its runner was shut down");
+                    stalled[x] = false;
+                    if done {
+                        conns[x] = None;
                     }
                 }
             },
